@@ -114,6 +114,20 @@ func checkC11(r *Run) {
 			r.Violation("python-roundtrip-diff/"+tag+"/"+diffKind(d), fmt.Sprintf("document %s comes back from Python as %s — differs at %s", q.Doc, resp.Out, d), replay)
 			continue
 		}
+		// only *optional* properties given as null may be omitted
+		var dropped []string
+		droppedNulls(orig, got, "", &dropped)
+		flagged := false
+		for _, p := range dropped {
+			if tag := strings.NewReplacer("+bounds", "").Replace(tagAtPath(m.cs.AM, m.obj.T, p)); strings.Contains(tag, "/required") {
+				r.Violation("python-roundtrip-diff/null-of-required-member-dropped/"+tag, fmt.Sprintf("document %s comes back from Python as %s — the required member %s, given as null, is gone", q.Doc, resp.Out, p), replay)
+				flagged = true
+				break
+			}
+		}
+		if flagged {
+			continue
+		}
 		// wire agreement with Go
 		if g, ok := goResps[q.ID]; ok && g.DecodeErr == "" && g.Panic == "" && g.Out != nil {
 			gj, _ := parseJSONNum(g.Out)
@@ -175,7 +189,12 @@ import "example.com/lib/common"
 
 #Unit: "px" | "em"
 
+// an alias, in this package, of a struct that lives in the other one
+#SharedAlias: common.#Options
+
 #Panel: {
+	aliased?: #SharedAlias
+	aliases?: [...#SharedAlias]
 	opts:    #Options
 	shared:  common.#Options
 	unit?:   #Unit
@@ -210,6 +229,7 @@ func c11CrossPackage(r *Run, c *corpus) ([]drvReq, map[string]string) {
 		`{"opts":{"a":""},"shared":{"b":0},"unit":"em","cunit":"s"}`,
 		`{"opts":{"a":"y"},"shared":{"b":7},"more":[{"b":1},{"b":2,"note":"z"}],"mine":[{"a":"p"},{"a":"q"}]}`,
 		`{"opts":{"a":"y"},"shared":{"b":-1,"note":""},"byKey":{"k1":{"b":5},"k2":{"b":6,"note":"w"}},"unit":"px","cunit":"ms"}`,
+		`{"opts":{"a":"z"},"shared":{"b":1},"aliased":{"b":4,"note":"through an alias"},"aliases":[{"b":8},{"b":9,"note":"n"}]}`,
 	}
 	var reqs []drvReq
 	xdocs := map[string]string{}
@@ -244,5 +264,32 @@ func c11JudgeCross(r *Run, q drvReq, doc string, resps map[string]drvResp) {
 	}
 	if d := jsonDiff(orig, got, jsonCmpOpts{NullEqualsAbsent: true}, ""); d != "" {
 		r.Violation("python-roundtrip-diff/cross-package/"+maskMsg(strings.SplitN(d, ":", 2)[0]), fmt.Sprintf("document %s comes back from Python as %s — differs at %s", doc, resp.Out, d), replay)
+	}
+}
+
+// droppedNulls lists the paths of object members that hold null in a and are absent from b.
+func droppedNulls(a, b any, path string, out *[]string) {
+	switch x := a.(type) {
+	case []any:
+		if y, ok := b.([]any); ok && len(x) == len(y) {
+			for i := range x {
+				droppedNulls(x[i], y[i], fmt.Sprintf("%s[%d]", path, i), out)
+			}
+		}
+	case map[string]any:
+		y, ok := b.(map[string]any)
+		if !ok {
+			return
+		}
+		for _, k := range sortedKeys(x) {
+			yv, present := y[k]
+			if x[k] == nil && !present {
+				*out = append(*out, path+"."+k)
+				continue
+			}
+			if present {
+				droppedNulls(x[k], yv, path+"."+k, out)
+			}
+		}
 	}
 }
